@@ -1196,18 +1196,26 @@ func (m *monState) checkFailureOutcome(name string, j *JobSnap, a *acceptInfo) {
 		if !j.HasError && !anyErr {
 			run.violate("C08", "r2", "job %s had a failing task at step %d but reports neither an error nor an errored task", name, ff)
 		}
-		// other running tasks are told to stop
-		running := false
+		// other running tasks are told to stop - those that were executing when the failure was handled and those
+		// that begin to execute afterwards (without continue_running_tasks_after_failure the failure stops the job;
+		// a task inside Run whose start has not been reported yet is as much "running" as one whose start has)
+		running, later := false, ""
 		for _, e := range m.evByJob[name] {
-			if e.Kind == "run-enter" && e.Step <= ff {
-				if x, ok := m.exitOf(name, e.Task); !ok || m.exitStep(name, e.Task) > ff {
-					_ = x
+			if e.Kind == "run-enter" {
+				if _, ok := m.exitOf(name, e.Task); !ok || m.exitStep(name, e.Task) > ff {
 					running = true
+					if e.Step > ff && later == "" {
+						later = e.Task
+					}
 				}
 			}
 		}
 		if running && len(m.events(name, "cancel-delivered")) == 0 {
-			run.violate("C08", "r2c", "job %s: a task failed at step %d while others were running, but they were never told to stop", name, ff)
+			if later != "" {
+				run.violate("C08", "r2c", "job %s: a task failed at step %d (fail-fast); task %s began to execute after that and the job's tasks were never told to stop", name, ff, later)
+			} else {
+				run.violate("C08", "r2c", "job %s: a task failed at step %d while others were running, but they were never told to stop", name, ff)
+			}
 		}
 		run.probe("failfast_failure")
 	} else {
